@@ -1,3 +1,4 @@
+import Generated.Facts
 import SsoModel.Config
 
 /-!
@@ -146,5 +147,22 @@ example : (parseOptions { domains := ["x.io"] } exDefault.route).groups = ["admi
 -- no rule anywhere ⇒ refused
 example : checkRule {} (ovBlock exDefault exProd).route = some .noAllowRule := by decide
 example : checkRule {} exDefault.route = none := by decide
+
+/-- Tie (T1): the loader — call/branch/store skeletons regenerated from the source on every run; the expectations below are
+what the model in this file transliterates. A structural edit of any of these functions breaks this theorem and sends the
+check searching for a failing input. -/
+theorem C14_wiring :
+    Sso.Generated.skel_cfg_loadServiceConfigs =
+      ["call:resolveTemplates", "call:parseServiceConfigs", "if{", "return", "}", "call:make", "range{", "call:resolveUpstreamConfig", "if{", "return", "}", "if{", "call:append", "}", "}", "call:make", "range{", "call:len", "if{", "continue", "}", "range{", "call:resolveExtraRoute", "if{", "return", "}", "call:append", "}", "store:proxy.ExtraRoutes", "}", "call:append", "range{", "call:validateUpstreamConfig", "if{", "return", "}", "}", "range{", "switch{", "case simple,\"\"{", "call:simpleRoute", "if{", "return", "}", "store:proxy.Route", "}", "case rewrite{", "call:rewriteRoute", "if{", "return", "}", "store:proxy.Route", "}", "default{", "call:Sprintf", "return", "}", "}", "}", "range{", "call:parseOptionsConfig", "if{", "return", "}", "}", "range{", "call:Sprintf", "if{", "continue", "}", "call:generateHmacAuth", "if{", "call:Sprintf", "return", "}", "store:proxy.HMACAuth", "}", "return"] ∧
+    Sso.Generated.skel_cfg_parseOptionsConfig =
+      ["if{", "}", "call:Merge", "if{", "return", "}", "if{", "call:Merge", "if{", "return", "}", "}", "range{", "call:Compile", "if{", "return", "}", "call:append", "store:proxy.SkipAuthCompiledRegex", "}", "store:proxy.AllowedGroups", "store:proxy.AllowedEmailDomains", "store:proxy.AllowedEmailAddresses", "store:proxy.Timeout", "store:proxy.ResetDeadline", "store:proxy.FlushInterval", "store:proxy.HeaderOverrides", "store:proxy.InjectRequestHeaders", "store:proxy.TLSSkipVerify", "store:proxy.PreserveHost", "store:proxy.SkipRequestSigning", "store:proxy.CookieName", "store:proxy.ProviderSlug", "store:proxy.RouteConfig.Options", "return"] ∧
+    Sso.Generated.skel_cfg_resolveUpstreamConfig =
+      ["if{", "return", "}", "if{", "}", "if{", "}", "call:Merge", "if{", "return", "}", "call:cleanWhiteSpace", "store:dst.Service", "return"] ∧
+    Sso.Generated.skel_cfg_resolveExtraRoute =
+      ["call:Merge", "if{", "return", "}", "store:dst.ExtraRoutes", "return"] ∧
+    Sso.Generated.skel_cfg_validateUpstreamConfig =
+      ["if{", "return", "}", "if{", "return", "}", "if{", "return", "}", "return"] ∧
+    Sso.Generated.skel_cfg_SetUpstreamConfigs =
+      ["if{", "call:ReadFile", "if{", "call:Errorf", "return", "}", "call:Environ", "call:parseEnvironment", "if{", "}", "call:loadServiceConfigs", "store:uc.upstreamConfigs", "if{", "call:Errorf", "return", "}", "}", "if{", "range{", "if{", "store:svc.TimeoutConfig.Write", "}", "call:len", "call:len", "call:len", "if{", "call:append", "}", "}", "call:len", "if{", "call:Errorf", "return", "}", "}", "return"] := by decide
 
 end Sso.Config
